@@ -175,6 +175,8 @@ FilesPresent(f) == {"coreIndex"} \cup (IF f.coreProof # None THEN {"coreProof"} 
                    \cup (IF f.provProof # None THEN {"provProof"} ELSE {}) \cup (IF f.chunk # None THEN {"chunk"} ELSE {})
 OpaqueClasses(f) == {"oversize:" \o x : x \in FilesPresent(f)} \cup {"bomb:" \o x : x \in FilesPresent(f)}
                     \cup {"casfail:" \o x : x \in FilesPresent(f)} \cup {"casfailAlt:" \o x : x \in FilesPresent(f)}
+                    \* the same limits when the content is served by an alternate source after the primary read failed
+                    \cup {"oversizeAlt:" \o x : x \in FilesPresent(f)} \cup {"bombAlt:" \o x : x \in FilesPresent(f)}
                     \cup {"null:" \o x : x \in FilesPresent(f)} \cup {"typeconf:" \o x : x \in FilesPresent(f)}
                     \cup {"longuri:" \o x : x \in FilesPresent(f) \ {"coreIndex"}}
                     \cup {"anchorGarbage"}
@@ -198,7 +200,7 @@ OrderCRUD == LET e == Expected(batch) IN \A i, j \in DOMAIN e : i < j =>
 ReadSafe == LET r == Read(files) IN ~r.err => (Len(r.ops) = files.count /\ ~HasDup(SfxSeq(r.ops)))
 (* the fault classes the property names must be rejected *)
 Prefix(s, p) == Len(s) >= Len(p) /\ SubSeq(s, 1, Len(p)) = p
-MustReject == \/ \E p \in {"oversize:", "bomb:", "longuri:", "casfail:"} : Prefix(opaque, p)
+MustReject == \/ \E p \in {"oversize:", "bomb:", "longuri:", "casfail:", "oversizeAlt:", "bombAlt:"} : Prefix(opaque, p)
               \/ opaque = "anchorGarbage"
               \/ (muts # <<>> /\ Read(files).err)
 Verdict == IF opaque # "none"
